@@ -18,6 +18,22 @@ EvalStep ==
        THEN bad' = bad ELSE PrintT(<<"VIOL", Id, ln, "Pure", H.kind>>) /\ bad' = bad + 1
     /\ ln' = ln + 1 /\ UNCHANGED <<tid, fin, ivars>>
 UpdStep == More /\ E.e = "Upd" /\ ln' = ln + 1 /\ UNCHANGED <<tid, fin, bad, ivars>>
+\* Credit default swap payoff (product/payoff.py CDS) with the discounting 2^(-t), maturity Tm, default time tau (integers),
+\* recovery R and spread s (fractions):  value = [ (1 - R) 2^(Tm - tau) [tau <= Tm]  -  s (1 - 2^(-min(Tm, tau))) 2^Tm / ln 2 ].
+\* The rational parts are formed here; 1 / ln 2 enters as 144270 / 100000; the value is recorded in units of 1e-5.
+RECURSIVE P2(_)
+P2(k) == IF k = 0 THEN 1 ELSE 2 * P2(k - 1)
+CdsA(r) == IF r.tau > r.Tm THEN <<0, 1>> ELSE QMul(QSub(QOne, <<r.R[1], r.R[2]>>), <<P2(r.Tm - r.tau), 1>>)
+CdsB(r) == LET m == IF r.tau < r.Tm THEN r.tau ELSE r.Tm IN
+           QMul(<<r.s[1], r.s[2]>>, QMul(QSub(QOne, <<1, P2(m)>>), <<P2(r.Tm), 1>>))
+AbsV(x) == IF x < 0 THEN -x ELSE x
+CdsRowOK(r) == LET a == CdsA(r) b == CdsB(r) IN
+    AbsV(r.v * a[2] * b[2] - (a[1] * b[2] * 100000 - b[1] * a[2] * 144270)) <= 3 * a[2] * b[2] + AbsV(b[1]) * a[2]
+CdsStep ==
+    /\ More /\ E.e = "Cds"
+    /\ IF \A i \in 1..Len(E.rows) : CdsRowOK(E.rows[i]) THEN bad' = bad
+       ELSE PrintT(<<"VIOL", Id, ln, "Pure", H.kind>>) /\ bad' = bad + 1
+    /\ ln' = ln + 1 /\ UNCHANGED <<tid, fin, ivars>>
 RaiseStep ==
     /\ More /\ E.e = "Raise"
     /\ PrintT(<<"REJECT", Id, ln, "Raise", H.kind>>)
@@ -26,6 +42,6 @@ Finish ==
     /\ ~fin /\ ln = Len(T) + 1
     /\ IF bad = 0 THEN PrintT(<<"ACCEPT", Id>>) ELSE TRUE
     /\ fin' = TRUE /\ UNCHANGED <<tid, ln, bad, ivars>>
-TraceNext == EvalStep \/ UpdStep \/ RaiseStep \/ Finish
+TraceNext == EvalStep \/ UpdStep \/ CdsStep \/ RaiseStep \/ Finish
 TraceSpec == TraceInit /\ [][TraceNext]_tvars
 =============================================================================
